@@ -9,8 +9,13 @@
  *                   the mutation applied to a copy (source must not change), to the source
  *                   (a second copy must not change); destruction of a copy, then of the
  *                   source; live allocations at the end.
+ *                   after each mutation the trees are compared again, and the mutated
+ *                   source is deep-copied once more (a tree WITH a history as copy source)
+ *   H <a> <ha> <b> <hb>  both trees get a history (mutations joined by ';', '-' = none);
+ *                   equal both ways and on themselves; deep copy of a' compared with a', b'
  * mut = <path>:<op>, path = (/i<idx> | /k<hexkey|->)*,
- * op = A<jv> | P<hexkey|->=<jv> | K<hexkey|-> | I<dec> | S<hex|-> | D<16hex>. */
+ * op = A<jv> | P<hexkey|->=<jv> | K<hexkey|-> | I<dec> | U<dec> | B<0|1> | S<hex|-> | D<16hex>
+ *    | Z<idx>=<jv> (array_put_idx) | X<idx>,<count> (array_del_idx). */
 #include "common.h"
 #include "jvtext.h"
 const char *DOMAIN = "eq";
@@ -125,6 +130,20 @@ static int mutate(struct json_object *o, const char *m)
 		(free)(k);
 		return 1; }
 	case 'I': return json_object_set_int64(o, (int64_t)strtoll(p, NULL, 10)) == 1;
+	case 'U': return json_object_set_uint64(o, (uint64_t)strtoull(p, NULL, 10)) == 1;
+	case 'B': return json_object_set_boolean(o, *p == '1') == 1;
+	case 'Z': {
+		char *e; unsigned long idx = strtoul(p, &e, 10); int err = 0; struct json_object *v;
+		if (!json_object_is_type(o, json_type_array) || *e != '=') return 0;
+		p = e + 1;
+		v = jv_parse(&p, &err);
+		if (json_object_array_put_idx(o, idx, v) != 0) { json_object_put(v); return 0; }
+		return 1; }
+	case 'X': {
+		char *e; unsigned long idx = strtoul(p, &e, 10), cnt;
+		if (!json_object_is_type(o, json_type_array) || *e != ',') return 0;
+		cnt = strtoul(e + 1, NULL, 10);
+		return json_object_array_del_idx(o, idx, cnt) == 0; }
 	case 'S': {
 		size_t n; unsigned char *s = jv_hexordash(&p, &n);
 		int rc = json_object_set_string_len(o, (char *)s, (int)n);
@@ -137,6 +156,14 @@ static int mutate(struct json_object *o, const char *m)
 		return json_object_set_double(o, d) == 1; }
 	default: return 0;
 	}
+}
+
+/* apply a history; prints one 0/1 per step ('-' for the empty history) */
+static void run_hist(struct json_object *o, char *h)
+{
+	char *save = NULL, *m;
+	if (!strcmp(h, "-")) { putchar('-'); return; }
+	for (m = strtok_r(h, ";", &save); m; m = strtok_r(NULL, ";", &save)) putchar(mutate(o, m) ? '1' : '0');
 }
 
 static const int FLAGS[6] = {
@@ -177,10 +204,20 @@ static void run_copy(char *sa, char *mut)
 	/* mutate the copy: the source must stay */
 	ok = mutate(c1, mut);
 	printf(" | M1 %s ", ok ? "ok" : "bad"); eq_dump(a); putchar(' '); eq_dump(c1);
+	printf(" %d %d", json_object_equal(a, c1), json_object_equal(c1, a));
 	/* mutate the source: a second copy must stay */
 	if (json_object_deep_copy(a, &c2, NULL) < 0) printf(" | COPY2FAILED");
 	ok = mutate(a, mut);
 	printf(" | M2 %s ", ok ? "ok" : "bad"); eq_dump(a); putchar(' '); eq_dump(c2);
+	printf(" %d %d %d", json_object_equal(a, c1), json_object_equal(c1, a), json_object_equal(a, c2));
+	/* the mutated source as a copy source */
+	{
+		struct json_object *c3 = NULL;
+		errno = 0;
+		rc = json_object_deep_copy(a, &c3, NULL);
+		printf(" | K %d %d %d ", rc, json_object_equal(a, c3), json_object_equal(c3, a)); eq_dump(c3);
+		json_object_put(c3);
+	}
 	/* destroy one copy, then the source: the survivors must stay */
 	printf(" | D1 %d ", json_object_put(c1)); eq_dump(a);
 	printf(" | D2 %d ", json_object_put(a)); eq_dump(c2);
@@ -190,9 +227,9 @@ static void run_copy(char *sa, char *mut)
 
 void run_case(char *rest)
 {
-	char *tok[5] = {0}, *save = NULL, *t;
+	char *tok[6] = {0}, *save = NULL, *t;
 	int n = 0;
-	for (t = strtok_r(rest, " ", &save); t && n < 5; t = strtok_r(NULL, " ", &save)) tok[n++] = t;
+	for (t = strtok_r(rest, " ", &save); t && n < 6; t = strtok_r(NULL, " ", &save)) tok[n++] = t;
 	xa_reset();
 	if (n == 3 && !strcmp(tok[0], "E")) {
 		struct json_object *a = parse_tree(tok[1]), *b = parse_tree(tok[2]);
@@ -216,6 +253,33 @@ void run_case(char *rest)
 		printf("X %d %d", json_object_equal(w1, w2), json_object_equal(o1, o2));
 		json_object_put(w1); json_object_put(w2); json_object_put(o1); json_object_put(o2);
 		printf(" live=%ld", xa_live);
+	} else if (n == 5 && !strcmp(tok[0], "H")) {
+		struct json_object *a = parse_tree(tok[1]), *b = parse_tree(tok[3]), *c = NULL;
+		int rc;
+		printf("H ");
+		run_hist(a, tok[2]); putchar(' '); run_hist(b, tok[4]); putchar(' ');
+		eq_dump(a); putchar(' '); eq_dump(b);
+		printf(" %d %d %d %d", json_object_equal(a, b), json_object_equal(b, a), json_object_equal(a, a), json_object_equal(b, b));
+		errno = 0;
+		rc = json_object_deep_copy(a, &c, NULL);
+		if (rc < 0) printf(" | K %d %s", rc, errno_name(errno));
+		else {
+			struct aset sa_set = {0}, sc_set = {0};
+			int i, same = 0;
+			printf(" | K %d %d %d ", rc, json_object_equal(a, c), json_object_equal(c, a)); eq_dump(c);
+			collect(a, &sa_set); collect(c, &sc_set);
+			printf(" %zu", shared(&sa_set, &sc_set));
+			(free)(sa_set.v); (free)(sc_set.v);
+			for (i = 0; i < 6; i++) {
+				size_t la = 0, lc = 0;
+				const char *ta = json_object_to_json_string_length(a, FLAGS[i], &la);
+				const char *tc = json_object_to_json_string_length(c, FLAGS[i], &lc);
+				if (ta && tc && la == lc && memcmp(ta, tc, la) == 0) same++;
+			}
+			printf(" %d %d %d", same, json_object_equal(c, b), json_object_equal(b, c));
+		}
+		json_object_put(a); json_object_put(b); json_object_put(c);
+		printf(" | live=%ld", xa_live);
 	} else if (n == 3 && !strcmp(tok[0], "C")) {
 		run_copy(tok[1], tok[2]);
 	} else
